@@ -119,7 +119,7 @@ func (n *node) elements(out *[]*node) {
 
 var oddValues = []string{"", " ", "@@", "a@b/c@d", "-1", "0", "65536", "4294967296", "99999999999999999999", "1e9", "true", "é世", "x'\"<&>", "=====", "!!!!", "QQ", "QUJD", "QUJDRA==", "2006-01-02T15:04:05Z", "Z", "+25:00", "http://[::1", "sha-1"}
 
-var oddTexts = []string{"text", " ", "\n\t ", "&amp;", "]]", "0", "QUJD", "a@b", "<![CDATA[<x/>]]>"}
+var oddTexts = []string{"text", "lorem ipsum dolor sit amet", " ", "\n\t ", "&amp;", "]]", "0", "QUJD", "a@b", "<![CDATA[<x/>]]>"}
 
 var oddNS = []string{"", "urn:example:other", "jabber:client", "jabber:x:data", "urn:xmpp:forward:0", "http://jabber.org/protocol/rsm"}
 
